@@ -261,3 +261,44 @@ def _build_block(inputs, chain):
 _replay.GENERATORS.update({'check_transaction_full_rule': _gen_checktx, 'check_block_full_rule': _gen_checkblock,
                            'check_block_contained': _gen_checkblock, 'check_transaction': _gen_checktx})
 _replay.BUILD_HOOKS.update({'c16_block': _build_block})
+
+
+@contract('bitcoin.core:CheckTransaction', name='check_transaction_no_double_spend', prop=P)
+def check_transaction_no_double_spend(tx: Obj(OneOf(CTransaction, CMutableTransaction))):
+    """an accepted transaction spends no outpoint twice (the clause missing from check_transaction), for every
+    number of inputs: the set of seen outpoints holds exactly the outpoints of the inputs scanned so far"""
+    requires(valid_tx(tx))
+    unfold(valid_wits(()))
+    unfold(all_null(()))
+    unfold(valid_txins(tx.vin))
+    unfold(enc_tx(tx, False))
+    option(chains=True, auto_unfold=False, exact=True)
+    invariant(0, True)
+    loopvar(1, 'vin_outpoints', Any)
+    invariant(1, forall(range(0, _k), lambda b: forall(range(0, b), lambda a:
+                 enc_outpoint(tx.vin[a].prevout) != enc_outpoint(tx.vin[b].prevout))))
+    invariant(1, forall(range(0, _k), lambda a: set_has(vin_outpoints, enc_outpoint(tx.vin[a].prevout))))
+    invariant(2, True)
+    raises(CheckTransactionError)
+    hint('post', 'post', unfold(distinct_prevouts(tx.vin)))
+    ensures(distinct_prevouts(tx.vin))
+
+
+@contract('bitcoin.core:CheckBlock', name='check_block_unique_txids', prop=P)
+def check_block_unique_txids(block: Obj(CBlock), fCheckPoW: Bool, fCheckMerkleRoot: Bool, cur_time: Int):
+    """an accepted block contains no txid twice, for every number of transactions (what else CheckBlock may raise
+    is the subject of check_block_contained)"""
+    requires(valid_block(block) and 0 <= cur_time)
+    unfold(valid_txs(block.vtx))
+    option(chains=True, auto_unfold=False, exact=True)
+    loopvar_in('bitcoin.core:CBlock.get_witness_commitment_index', 0, 'commit_pos', Optional(Int))
+    invariant_in('bitcoin.core:CBlock.get_witness_commitment_index', 0,
+                 commit_pos is None or (0 <= commit_pos and commit_pos < _k))
+    loopvar(0, 'unique_txids', Any)
+    invariant(0, nSigOps >= 0)
+    invariant(0, forall(range(0, _k), lambda b: forall(range(0, b), lambda a:
+                 txid_of(block.vtx[a]) != txid_of(block.vtx[b]))))
+    invariant(0, forall(range(0, _k), lambda a: set_has(unique_txids, txid_of(block.vtx[a]))))
+    raises(Exception)
+    hint('post', 'post', unfold(distinct_txids(block.vtx)))
+    ensures(distinct_txids(block.vtx))
